@@ -69,6 +69,6 @@ theorem fp9_mul_dxs_eq (a b : V3 E) : fp9_mul_dxs o nor a b = cubMulDxs o nor a 
 /-! ### fp12: cyclotomic, compressed, decompression -/
 theorem fp12_sqr_cyc_basic_eq (a : Fp12 E) : fp12_sqr_cyc_basic o nor a = fp12SqrCyc o nor a := rfl
 theorem fp12_sqr_pck_basic_eq (c a : Fp12 E) : fp12_sqr_pck_basic o nor c a = fp12SqrPck o nor c a := rfl
-theorem fp12_back_cyc_eq (isOne : Bool) (a : Fp12 E) : fp12_back_cyc o nor isOne a = fp12BackCyc o nor isOne a := rfl
+theorem fp12_back_cyc_eq (a : Fp12 E) : fp12_back_cyc o nor a = fp12BackCyc o nor a := rfl
 
 end Relic.Lemmas.FpxGen
